@@ -176,8 +176,14 @@ def handle_rules(ctx, rid, cls, what_lock):
                 continue
             pnames = [p["name"] for p in f.params]
             ini = {i.get("field"): f.s(i.get("init")) for i in f.inits if i.get("field")}
-            li = unwrap(f, ini.get("m_handle_lock"))
-            di = ini.get("data")
+            def _braced(e):
+                # `data{val}` / `m_handle_lock{mut}`: a one-element initialiser list is the element
+                e = unwrap(f, e)
+                while e is not None and e["k"] == "InitListExpr" and len(f.children(e)) == 1:
+                    e = unwrap(f, f.children(e)[0])
+                return e
+            li = _braced(ini.get("m_handle_lock"))
+            di = _braced(ini.get("data"))
             site = f.where
             ok_d = di is not None and path(f, di) == "p:" + pnames[0]
             ctx.ob(rid, ok_d, site, "constructor stores the pointer it is given", "", fn=f.label, inst=f.qname)
